@@ -87,7 +87,7 @@ _CUSTOM = {}
 def custom_table_palette(variant=1):
     """a table palette that re-maps the palette of enum cells (SUB_PALETTES_MAP).  The classes are made by this
     factory: variant 1 and variant 2 are different classes with the SAME qualified names; the second one brings
-    syntax ids and defaults of its own"""
+    syntax ids and defaults of its own (each refers to a built-in id and adds effects to it)"""
     if variant not in _CUSTOM:
         from ak.ppobj import PPEnumFieldType
         from ak.color import ConfColor
@@ -96,7 +96,7 @@ def custom_table_palette(variant=1):
             if variant == 2:
                 # (a class that declares defaults of its own repeats those of the class it derives from)
                 SYNTAX_DEFAULTS = dict(PPEnumFieldType.EnumPalette.SYNTAX_DEFAULTS or {},
-                                       **{"VFCUSTOM.VALUE": "MAGENTA:bold", "VFCUSTOM.GOOD": "CYAN/BLUE"})
+                                       **{"VFCUSTOM.VALUE": "NUMBER:bold,underline", "VFCUSTOM.GOOD": "OK:crossed"})
                 value = ConfColor('VFCUSTOM.VALUE')
                 name_good = ConfColor('VFCUSTOM.GOOD')
             else:
@@ -107,7 +107,7 @@ def custom_table_palette(variant=1):
         class VfTablePalette(PPTable.TablePalette):
             SUB_PALETTES_MAP = {PPEnumFieldType.EnumPalette: VfEnumPalette}
             if variant == 2:
-                SYNTAX_DEFAULTS = dict(PPTable.TablePalette.SYNTAX_DEFAULTS or {}, **{"VFCUSTOM.BORDER": "YELLOW:underline"})
+                SYNTAX_DEFAULTS = dict(PPTable.TablePalette.SYNTAX_DEFAULTS or {}, **{"VFCUSTOM.BORDER": "WARN:underline", "VFCUSTOM.X": "KEYWORD:blink,crossed"})
                 border = ConfColor('VFCUSTOM.BORDER')
             else:
                 border = ConfColor('KEYWORD')
@@ -178,6 +178,12 @@ def render(obj, ospec, req, conf_dict, live_conf=None, observe=None):
         if kind == 'pp':
             res = obj(unjson(ospec['value']), **kw)
         elif kind == 'rec':
+            if req.get('touch_columns'):
+                # the caller formats the record, builds a line of its own from the returned column texts (in place)
+                # and throws it away; then the record is formatted for real
+                data = obj(tuple(ospec['recs'][ospec['rec_index']]), **kw)
+                for col in data.columns:
+                    col += " #"
             res = obj(tuple(ospec['recs'][ospec['rec_index']]), **kw).ch_text()
         else:
             res = obj.ch_text(**kw)
@@ -250,6 +256,7 @@ def main():
         req = dict(scenario['requests'][idx])
         req.pop('switch_conf', None)      # (the reference renders without any switch in between)
         req.pop('discard_conf', None)     # (... and keeps its configuration until the text is taken)
+        req.pop('touch_columns', None)    # (... and nobody touches the column texts of an earlier result)
         ospec = scenario['objects'][req['obj']]
         shared = {}
         if ospec['kind'] == 'table' and req.get('set_fmt') and 'base_spec' not in ospec:
